@@ -80,15 +80,39 @@ def _run_chunk(jobs, tag, timeout):
                 f.write(json.dumps(j) + "\n")
         if os.path.exists(of):
             os.remove(of)
-        try:
-            p = subprocess.run([FVH, "run", "--jobs", jf, "--out", of], stdout=subprocess.PIPE,
-                               stderr=subprocess.PIPE, text=True, timeout=timeout)
-            rc, out, err = p.returncode, p.stdout, p.stderr
-            hung = False
-        except subprocess.TimeoutExpired as e:
-            rc, hung = -9, True
-            out = e.stdout.decode() if isinstance(e.stdout, bytes) else (e.stdout or "")
-            err = e.stderr.decode() if isinstance(e.stderr, bytes) else (e.stderr or "")
+        # watchdog: a single job that produces no END marker for `job_timeout` seconds is hung
+        job_timeout = float(os.environ.get("VERIF_JOB_TIMEOUT", "120"))
+        import threading
+        proc = subprocess.Popen([FVH, "run", "--jobs", jf, "--out", of], stdout=subprocess.PIPE, stderr=subprocess.PIPE, text=True)
+        lines, errbuf = [], []
+        last = [time.time()]
+
+        def rd_out():
+            for ln in proc.stdout:
+                lines.append(ln)
+                last[0] = time.time()
+
+        def rd_err():
+            for ln in proc.stderr:
+                errbuf.append(ln)
+        t1 = threading.Thread(target=rd_out, daemon=True)
+        t2 = threading.Thread(target=rd_err, daemon=True)
+        t1.start()
+        t2.start()
+        hung = False
+        t_start = time.time()
+        while proc.poll() is None:
+            time.sleep(0.2)
+            if time.time() - last[0] > job_timeout or time.time() - t_start > timeout:
+                hung = True
+                proc.kill()
+                break
+        proc.wait()
+        t1.join(timeout=5)
+        t2.join(timeout=5)
+        rc = -9 if hung else proc.returncode
+        out = "".join(lines)
+        err = "".join(errbuf[-200:])
         traces = {}
         if os.path.exists(of):
             for line in open(of, errors="replace"):
@@ -331,3 +355,16 @@ def write_evidence(pid, tier, seed, level, coverage, wall, violations, assumptio
     with open(os.path.join(EVIDENCE, "%s.json" % pid), "w") as f:
         json.dump(ev, f, indent=1)
     return ev
+
+
+def scenario_jobs(pid, rec=None):
+    """scripted critical schedules (regressions of fixed findings) tagged for this property"""
+    import glob
+    jobs = []
+    for f in sorted(glob.glob(os.path.join(VERIF, "scenarios", "*.json"))):
+        j = json.load(open(f))
+        if pid in j.get("props", []):
+            if rec is not None:
+                j["rec"] = list(rec)
+            jobs.append(j)
+    return jobs
